@@ -101,3 +101,64 @@ func FreeExpr(t *rapid.T, depth int) bx.Expr {
 		return q
 	}
 }
+
+// FreeLong draws a LONG shape: a flat chain of 17..300 matches joined by and/or, a run of
+// 3..160 `not`s, or quantifiers nested 4..50 deep - sizes that tree generators bounded by
+// depth never reach.
+func FreeLong(t *rapid.T) bx.Expr {
+	leaf := func() bx.Expr { return FreeExpr(t, 1) }
+	switch rapid.IntRange(0, 3).Draw(t, "longKind") {
+	case 0, 1:
+		n := rapid.IntRange(17, 120).Draw(t, "chainLen")
+		if rapid.IntRange(0, 5).Draw(t, "veryLong") == 0 {
+			n = rapid.IntRange(121, 300).Draw(t, "chainLen2")
+		}
+		mode := rapid.IntRange(0, 2).Draw(t, "chainOp") // 0 or, 1 and, 2 mixed
+		// right-nested, as the grammar groups chains. Mixed chains are `and`-runs joined by `or`
+		// (a and b or c and d ...), which needs no parentheses: an `or` under an `and` would need
+		// one pair per alternation and every pair multiplies the parse cost by 4.
+		var groups []bx.Expr
+		var cur bx.Expr
+		for i := 0; i < n; i++ {
+			l := leaf()
+			if cur == nil {
+				cur = l
+			} else {
+				cur = &bx.And{L: l, R: cur}
+			}
+			if mode == 0 || (mode == 2 && rapid.IntRange(0, 2).Draw(t, "split") == 0) {
+				groups = append(groups, cur)
+				cur = nil
+			}
+		}
+		if cur != nil {
+			groups = append(groups, cur)
+		}
+		e := groups[len(groups)-1]
+		for i := len(groups) - 2; i >= 0; i-- {
+			e = &bx.Or{L: groups[i], R: e}
+		}
+		return e
+	case 2:
+		k := rapid.IntRange(3, 160).Draw(t, "notRun")
+		e := leaf()
+		for i := 0; i < k; i++ {
+			e = &bx.Not{X: e}
+		}
+		return e
+	default:
+		d := rapid.IntRange(4, 50).Draw(t, "quantDepth")
+		e := leaf()
+		for i := 0; i < d; i++ {
+			e = &bx.Quant{All: i%2 == 0, Sel: FreeSel(t), Mode: bx.BindMode(i % 4), Index: "i" + string(rune('a'+i%26)), Value: "v" + string(rune('a'+i%26)), Body: e}
+			q := e.(*bx.Quant)
+			switch q.Mode {
+			case bx.BindDefault, bx.BindValue:
+				q.Index = ""
+			case bx.BindIndex:
+				q.Value = ""
+			}
+		}
+		return e
+	}
+}
